@@ -4,7 +4,8 @@ Bounded exhaustive product on the real parser: fixture class families (mc/fixtur
 declaration style x logical class spec (class named by path / by name / not named; init args none / valid /
 unknown / ill-typed / missing required; dict_kwargs) x notation (explicit dict, string, init_args without
 class_path, flat init args, dotted argv options in explicit and short spelling) x channel (parse_object,
---config, --x=<json>, dotted argv, argument default) x one, two or three sources (class changes); sibling
+--config, --x=<json>, dotted argv, argument default) x one, two or three sources (class changes); lineage of the
+named class below the declared one (direct, via a concrete / abstract / private intermediate class, diamond); sibling
 class-typed positions with prefix-related names (parameters of a nested class / of a class group / separate
 top-level arguments, both declaration orders); whole lists / dicts of classes given again by a later source
 (every element position x relation to the class configured there; shrinking, growing, empty containers).
@@ -33,7 +34,8 @@ META = {
     "reflection-based validator (issubclass / inspect.signature / conforms) and a constructor log",
     "level_text": "Every combination of declared type, class token (subclasses, unrelated classes, abstract classes, "
     "factory functions, importable instances, modules, constants, unimportable paths), init-args mutation, notation "
-    "and channel within the stated bounds - including sibling class-typed positions with prefix-related names and "
+    "and channel within the stated bounds - including classes that descend from the declared class through abstract "
+    "or private intermediate classes or along two lines, sibling class-typed positions with prefix-related names and "
     "lists / dicts of classes given again by a later source - is executed on the real parser and compared with a reference model that "
     "decides acceptance and the effective configuration by reflection on the fixture classes; accepted "
     "configurations are instantiated and a constructor log decides exact class, exactly-once construction, exact "
@@ -690,6 +692,10 @@ def evaluate(case):
             stat("rejected")
         return devs, stats
     stat("model_accept")
+    # lineage of the classes given by their bare name in a history the MODEL accepts (counted whatever the
+    # implementation does with it, so that the vacuity guards speak about the space, not about the tree under test)
+    for lab in {lineage_of(case["t"], T, s["c"]) for ch, form, spec in case["srcs"] for s in named_specs(spec, [])}:
+        stat(f"name_only_valid:{lab}")
     if o["kind"] == "ArgumentError":
         if trace.get("classless_in_resized"):
             # one root cause of its own: an element without class_path in a list / dict given again with another
@@ -722,8 +728,6 @@ def evaluate(case):
         return devs, stats
     if want_d is not None and not (isinstance(want_d, dict) and "instance" in want_d):
         stat("nontrivial")
-    for lab in {lineage_of(case["t"], T, s["c"]) for ch, form, spec in case["srcs"] for s in named_specs(spec, [])}:
-        stat(f"name_only_accepted:{lab}")  # a class given by its bare name, resolved to the class the model expects
     check_instances(p, cfg, exp, shown, devs, stat, top=case.get("st") == "top")
     return devs, stats
 
@@ -873,7 +877,7 @@ def explore(ctx):
     ctx.require(totals.get("toplevel_accepted", 0) >= 60, ">= 60 accepted cases with sibling class-typed top-level arguments")
     ctx.require(totals.get("siblings/instantiated", 0) >= 200 and totals.get("recontainer/instantiated", 0) >= 200, "siblings and recontainer families: >= 200 instantiated configurations each")
     for lab in ("direct", "via-concrete", "via-abstract", "via-private", "diamond"):
-        ctx.require(totals.get("name_only_accepted:" + lab, 0) >= 10, f">= 10 accepted cases name a class by its bare name that descends from the declared class {lab}")
+        ctx.require(totals.get("name_only_valid:" + lab, 0) >= 10, f">= 10 valid histories name a class by its bare name that descends from the declared class {lab}")
     for reason in ("wrong-class", "callable-return-not-subclass", "not-a-class:module", "not-a-class:object", "not-importable",
                    "unknown-init-arg", "ill-typed-init-arg", "missing-required", "ambiguous-name", "unresolvable-name", "no-implicit-class"):  # fmt: skip
         ctx.require(rejected_reasons.get(reason, 0) >= 10, f"model rejection reason {reason} occurs >= 10 times")
